@@ -966,6 +966,21 @@ def do_case(args):
         except Exception as e:
             m["exc"] = "observe:" + type(e).__name__
             m["msg"] = "observing the restored object raised %s: %s" % (type(e).__name__, str(e)[:300])
+    # independence: a restored object must not share storage with the source (moving every parameter of the
+    # restored object must leave the source's state_dict untouched)
+    with torch.no_grad():
+        for m, obj in restored:
+            if m.get("exc") is not None:
+                continue
+            for prm in obj.parameters():
+                prm.add_(0.5)
+            cur = {k: v for k, v in src.state_dict().items()}
+            moved = sorted(k for k, v in cur.items() if "sd:" + k in ref and not torch.equal(v, ref["sd:" + k]))
+            if moved:
+                m["aliases"] = moved[:6]
+                for k, v in cur.items():          # put the source back
+                    if "sd:" + k in ref:
+                        v.copy_(ref["sd:" + k])
     rec["names"] = {v: k for k, v in num.names.items()}
     rec["owners"] = {}
     for a, c, v in rec["src_table"]:
@@ -1027,6 +1042,10 @@ def judge(out, rec, m, mod):
         return "exception"
     diffs = m.get("diffs", [])
     classes = sorted({obs_class(k) for k, _ in diffs})
+    if m.get("aliases"):
+        out.fail("%s:aliases-source:%s" % (mech, fam),
+                 "the restored %s model shares storage with the source: moving its parameters changed the source's %s"
+                 % (fam, ", ".join(m["aliases"])), case, impl=m["aliases"], model="restored objects own their values")
     if m["mech"].startswith("sd"):
         impl_ok = m["strict"] == "ok"
         if impl_ok != mod["strict"]:
@@ -1081,6 +1100,10 @@ def plan(seed, tier):
     """(family, save point) pairs.  quick: every family at 'init' and 'eval' plus two further save
     points rotating with the seed; thorough: every family at every save point."""
     todo = []
+    if tier != "quick":      # thorough: three independent data / perturbation seeds, every save point
+        for sd in (seed + 101, seed + 202):
+            todo += [(f.name, p, sd, tier) for f in families(sd, tier)
+                     for p in SAVE_POINTS if (f.fantasy or not p.startswith("fantasy")) and not (f.kind == "var" and p == "fantasy-model")]
     for i, fam in enumerate(families(seed, tier)):
         pts = [p for p in SAVE_POINTS if fam.fantasy or not p.startswith("fantasy")]
         if fam.kind == "var":
